@@ -774,7 +774,7 @@ func (x *Exec) evalCall(env *Env, e *Expr) (Val, error) {
 			return nil, err
 		}
 		return nftKey(args[0], args[1]), nil
-	case "svcfound", "svcstate": // what the service module answers for a request context id (expected keeper, A-MODSEP)
+	case "svcfound", "svcstate", "svcbatch": // what the service module answers for a request context id (expected keeper, A-MODSEP)
 		if err := need(1); err != nil {
 			return nil, err
 		}
@@ -797,7 +797,11 @@ func (x *Exec) evalCall(env *Env, e *Expr) (Val, error) {
 				if strings.HasSuffix(imp.Path(), "modules/service/exported") || strings.HasSuffix(imp.Path(), "modules/service/types") {
 					if o := imp.Scope().Lookup("RequestContext"); o != nil {
 						if ds := SortOf(o.Type()); ds != nil {
-							return FieldByName(UF("svc_ctx<"+ds.Name+">", ds, ep, args[0]), "State"), nil
+							fld := "State"
+							if name == "svcbatch" {
+								fld = "BatchCounter"
+							}
+							return FieldByName(UF("svc_ctx<"+ds.Name+">", ds, ep, args[0]), fld), nil
 						}
 					}
 				}
